@@ -477,11 +477,17 @@ func runBackend(kind string, batch int, ms mapSpec, mm *gostatsd.MetricMap) (*ca
 		if b.Run != nil {
 			vsched.GoNamed("backend.Run", func() { b.Run(ctx) })
 		}
-		b.Backend.SendMetricsAsync(ctx, mm, func(errs []error) {
+		// the backend gets a private copy of the aggregate and, as soon as SendMetricsAsync has returned, the copy is
+		// overwritten the way the flusher's next steps (Reset, new datapoints) overwrite the aggregator's live map:
+		// whatever the backend sends must have been taken from the map before it returned
+		work := gostatsd.NewMetricMap(false)
+		work.Merge(mm)
+		b.Backend.SendMetricsAsync(ctx, work, func(errs []error) {
 			if !vsched.Aborting() {
 				cbs++
 			}
 		})
+		overwrite(work)
 		vsched.Quiesce("sent")
 	})
 	if cerr != "" {
@@ -546,6 +552,32 @@ func runBackend(kind string, batch int, ms mapSpec, mm *gostatsd.MetricMap) (*ca
 		}
 	}
 	return c, relay, ""
+}
+
+func overwrite(mm *gostatsd.MetricMap) {
+	for _, m := range mm.Counters {
+		for k, c := range m {
+			c.Value, c.PerSecond = -777, -777
+			m[k] = c
+		}
+	}
+	for _, m := range mm.Gauges {
+		for k, g := range m {
+			g.Value = -777
+			m[k] = g
+		}
+	}
+	for _, m := range mm.Timers {
+		for k, t := range m {
+			m[k] = gostatsd.Timer{Tags: t.Tags, Source: t.Source, Timestamp: t.Timestamp, Values: []float64{-777}, Count: -777, Min: -777, Max: -777, Sum: -777, Mean: -777, Median: -777}
+		}
+	}
+	for _, m := range mm.Sets {
+		for k, st := range m {
+			st.Values = map[string]struct{}{"overwritten": {}}
+			m[k] = st
+		}
+	}
 }
 
 func multiset(es []entry) map[string]int {
@@ -656,6 +688,23 @@ func checkTagsHost(kind string, s ser, e entry) string {
 		}
 		if s.Source != "" && !hostTag && !has("host="+s.Source) {
 			return "host tag missing"
+		}
+		// exactly the series' tags, plus host=<source> when it has a source and no host: tag of its own
+		wantN := len(s.Tags)
+		if s.Source != "" && !hostTag {
+			wantN++
+		}
+		nh, nle := 0, 0
+		for _, x := range e.Tags {
+			if strings.HasPrefix(x, "host=") {
+				nh++
+			}
+			if strings.HasPrefix(x, "le=") {
+				nle++ // histogram bucket label
+			}
+		}
+		if len(e.Tags)-nle != wantN || nh > 1 {
+			return fmt.Sprintf("tags %v: want the %d tags of the series%s and nothing else (host given %d times)", e.Tags, len(s.Tags), map[bool]string{true: " plus host=" + s.Source}[s.Source != "" && !hostTag], nh)
 		}
 	case "graphite-basic", "graphite-legacy":
 		if len(e.Tags) != 0 {
